@@ -342,9 +342,9 @@ def generate(repo, outdir, relock=False):
         out = ["/- GENERATED by harness/gen_lean.py from /repo on every run — do not edit. -/",
                "namespace Buidl.Gen", ""]
         for it, txt, loc in lst:
-            out.append(f"/-- {loc} -/")
             if len(txt) > 20000:
                 out.append("set_option maxRecDepth 100000 in")
+            out.append(f"/-- {loc} -/")
             kw = "abbrev" if it["ty"] in ("Nat", "Int", "Bool") else "def"
             out.append(f"{kw} {it['name']} : {it['ty']} := {txt}")
             out.append("")
